@@ -191,6 +191,7 @@ def leak_class(model, s, got):
 
 
 PROFILE = {
+    'client_flavours': ['plain', 'plain', 'plain', 'plain', 'jsonp', 'gzip', 'jsonp+gzip'],
     'world_kw_st': st.fixed_dictionaries({
         'handler_delay': st.sampled_from([{}, {}, {}, {'disconnect': 0.25}, {'message': 0.25},
                                           {'disconnect': 0.25, 'message': 0.25}])}),
@@ -200,7 +201,9 @@ PROFILE = {
     'max_sessions': 5,
     'packet_kinds': [('msg', 3), ('pong', 1), ('close', 2), ('bad', 1)],
     'post_modes': [('pkts', 6), ('raw', 1)],
-    'config': {'transports': st.sampled_from([None, None, None, ['polling'], ['websocket']]),
+    'config': {'http_compression': st.sampled_from([True, False]),
+               'compression_threshold': st.sampled_from([0, 1024]),
+               'transports': st.sampled_from([None, None, None, ['polling'], ['websocket']]),
                'ping_interval': st.sampled_from([1, 2.5, 5]),
                'ping_timeout': st.sampled_from([1, 2.5, 5]),
                'monitor_clients': st.sampled_from([True, True, True, False])},
